@@ -47,6 +47,9 @@ def expand_spans(text, repo, spans_log):
         rel, name, a, b = m.group(1), m.group(2), m.group(3).strip(), m.group(4).strip()
         src = open(os.path.join(repo, rel), encoding="utf-8").read()
         ra = rs.anchor_regex(a)
+        before = b.startswith("@before ")   # span ends right before the anchor (anchor text itself excluded)
+        if before:
+            b = b[len("@before "):].strip()
         rb = rs.anchor_regex(b) if b != "@block_end" else None
         ha = list(ra.finditer(src))
         if len(ha) != 1:
@@ -66,10 +69,10 @@ def expand_spans(text, repo, spans_log):
             if e is None:
                 raise KaniSetupError("span %s: enclosing block end not found" % name)
         else:
-            hb = [h for h in rb.finditer(src) if h.start() >= ha[0].start()]
+            hb = [h for h in rb.finditer(src) if h.start() >= ha[0].end()]
             if not hb:
                 raise KaniSetupError("span %s: end anchor `%s` not found after begin in %s" % (name, b, rel))
-            e = hb[0].end()
+            e = hb[0].start() if before else hb[0].end()
         body = src[s:e]
         depth = 0
         for t in rs.lex(body):
